@@ -296,7 +296,11 @@ def prepare_label(s: str, convert_unicode: bool, to_snake_case: bool) -> str:
     s = re.sub(r"\W", "", s)
     if not ('a' <= s[0].lower() <= 'z'):
         if '0' <= s[0] <= '9':
-            s = ones[int(s[0])] + "_" + s[1:]
+            word = ones[int(s[0])]
+            if not to_snake_case:
+                # Class names stay capitalized, otherwise nested class gets the name of the field that refers to it
+                word = word.capitalize()
+            s = word + "_" + s[1:]
     if to_snake_case:
         s = inflection.underscore(s)
     if s in blacklist_words:
